@@ -156,5 +156,66 @@ theorem setValue_consistent (sem : Sem) (tasks : List ETask) (g : Path → List 
     exact key t (Or.inr (this ▸ ht'))
   · exact key t (Or.inl ⟨ht, hin⟩)
 
+/-- The scheduling argument for an arbitrary execution list `order` (any legal iteration order of the
+    sets involved, not only the depth-first one): it has no duplicates, contains exactly what is reachable
+    from the start set, and respects every edge between distinct members.  `hafter` says that the tasks
+    outside the list hold right after the user's write. -/
+theorem consistent_of_order (sem : Sem) (tasks : List ETask) (g : Path → List Path) (start order : List Path)
+    (σ1 σf : Val) (Ltasks : List ETask)
+    (hL : Ltasks.map (·.target) = order)
+    (hLsub : ∀ t ∈ Ltasks, t ∈ tasks)
+    (hrun : runAll? (exprSys sem) Ltasks σ1 = some σf)
+    (hafter : ∀ t ∈ tasks, t.target ∉ order → (exprSys sem).Q t σ1)
+    (hnd : order.Nodup)
+    (hmem : ∀ x, x ∈ order ↔ ∃ s ∈ start, Dfs3.Reach g s x)
+    (hbef : ∀ u w, u ∈ order → w ∈ g u → w ≠ u → Dfs3.Before order u w)
+    (hedge : ∀ u ∈ tasks, ∀ t ∈ tasks, (∃ r ∈ leafRefs t.expr, ¬ Incomparable u.target r) → t.target ∈ g u.target)
+    (hfind : ∀ x ∈ order, ∃ t ∈ Ltasks, t.target = x)
+    (hH2 : ∀ t ∈ tasks, ∀ u ∈ tasks, t.target ≠ u.target → Incomparable u.target t.target)
+    (hinj : ∀ t ∈ tasks, ∀ u ∈ tasks, t.target = u.target → t = u)
+    (hgood : ∀ t ∈ tasks, (exprSys sem).good t) :
+    ∀ t ∈ tasks, ∃ w, eval sem σf t.expr = .ok w ∧ get σf t.target = .ok w := by
+  have inL : ∀ t ∈ Ltasks, t.target ∈ order := by
+    intro t ht; rw [← hL]; exact List.mem_map_of_mem ht
+  have closure : ∀ u ∈ Ltasks, ∀ t ∈ tasks, (∃ r ∈ leafRefs t.expr, ¬ Incomparable u.target r) →
+      t.target ∈ order := by
+    intro u hu t ht hex
+    have he := hedge u (hLsub u hu) t ht hex
+    obtain ⟨s, hs, hreach⟩ := (hmem u.target).mp (inL u hu)
+    exact (hmem t.target).mpr ⟨s, hs, hreach.tail he⟩
+  have NIof : ∀ u ∈ tasks, ∀ t ∈ tasks, u.target ≠ t.target →
+      (∀ r ∈ leafRefs t.expr, Incomparable u.target r) → (exprSys sem).NI u t := by
+    intro u hu t ht hne hr
+    exact ⟨(hgood u hu).1, (hgood t ht).1, hH2 t ht u hu (fun e => hne e.symm),
+      fun r hr' => ⟨((hgood t ht).2 r hr').1, hr r hr'⟩⟩
+  have key := push_consistent sem Ltasks (fun t => t ∈ tasks ∧ t.target ∉ order) σ1 σf hrun
+    (fun t ht => hgood t (hLsub t ht))
+    (fun t ⟨ht, hnot⟩ => hafter t ht hnot)
+    (by
+      intro t ⟨ht, hnot⟩ u hu
+      have hne : u.target ≠ t.target := fun e => hnot (e ▸ inL u hu)
+      refine NIof u (hLsub u hu) t ht hne ?_
+      intro r hr
+      refine Classical.byContradiction fun hc => ?_
+      exact hnot (closure u hu t ht ⟨r, hr, hc⟩))
+    (by
+      apply pairwise_of_before (·.target) (fun t u => (exprSys sem).NI u t) Ltasks (by rw [hL]; exact hnd)
+      intro t ht u hu hne hni
+      rw [hL]
+      have hex : ∃ r ∈ leafRefs t.expr, ¬ Incomparable u.target r := by
+        refine Classical.byContradiction fun hc => ?_
+        apply hni
+        refine NIof u (hLsub u hu) t (hLsub t ht) (fun e => hne e.symm) ?_
+        intro r hr
+        exact Classical.byContradiction fun hc' => hc ⟨r, hr, hc'⟩
+      have he := hedge u (hLsub u hu) t (hLsub t ht) hex
+      exact hbef u.target t.target (inL u hu) he hne)
+  intro t ht
+  by_cases hin : t.target ∈ order
+  · obtain ⟨t', ht', heq⟩ := hfind t.target hin
+    have : t' = t := hinj t' (hLsub t' ht') t ht heq
+    exact key t (Or.inr (this ▸ ht'))
+  · exact key t (Or.inl ⟨ht, hin⟩)
+
 #print axioms setValue_consistent
 end Capstone
